@@ -271,7 +271,7 @@ func utClass(c *utCase) Verdict {
 		v.Signature, v.Detail = "unexpected-error", fmt.Sprintf("MannWhitneyUTest returned error %v for non-degenerate samples", err)
 		return v
 	}
-	v.Got = map[string]interface{}{"U": res.U, "P": res.P, "N1": res.N1, "N2": res.N2}
+	v.Got = map[string]interface{}{"U": utSan(res.U), "P": utSan(res.P), "N1": res.N1, "N2": res.N2}
 	if res.N1 != n1 || res.N2 != n2 || res.AltHypothesis != utAlt(c.Alt) {
 		v.Signature, v.Detail = "result-fields", "N1/N2/AltHypothesis do not describe the call"
 		return v
@@ -362,10 +362,10 @@ func utDist(c *utCase) Verdict {
 		return c.Hist[v]
 	}
 	type cell struct {
-		Fn   string  `json:"fn"`
-		U    float64 `json:"u"`
-		Got  float64 `json:"got"`
-		Want string  `json:"want"`
+		Fn   string      `json:"fn"`
+		U    float64     `json:"u"`
+		Got  interface{} `json:"got"`
+		Want string      `json:"want"`
 	}
 	var bad []cell
 	asBuiltOnly := true
@@ -376,7 +376,7 @@ func utDist(c *utCase) Verdict {
 			u := float64(v) / 2
 			g := d.CDF(u)
 			if !ratEq(g, wantCDF(v), c.Total) {
-				bad = append(bad, cell{"CDF", u, g, fmt.Sprintf("%d/%d", wantCDF(v), c.Total)})
+				bad = append(bad, cell{"CDF", u, utSan(g), fmt.Sprintf("%d/%d", wantCDF(v), c.Total)})
 				if !(v >= 0 && v <= c.Top && len(c.AbCdf) == c.Top+1 && ratEq(g, c.AbCdf[v], c.Total)) {
 					asBuiltOnly = false
 				}
@@ -388,7 +388,7 @@ func utDist(c *utCase) Verdict {
 				sumPMF += p
 				run += p
 				if !ratEq(p, wantPMF(v), c.Total) {
-					bad = append(bad, cell{"PMF", u, p, fmt.Sprintf("%d/%d", wantPMF(v), c.Total)})
+					bad = append(bad, cell{"PMF", u, utSan(p), fmt.Sprintf("%d/%d", wantPMF(v), c.Total)})
 					if !(v >= 0 && v <= c.Top && len(c.AbPmf) == c.Top+1 && ratEq(p, c.AbPmf[v], c.Total)) {
 						asBuiltOnly = false
 					}
@@ -587,6 +587,15 @@ func utChoose(n, k int) float64 {
 	return math.Round(c)
 }
 
+// utSan makes a reported float fit for JSON (NaN and infinities, which the code under test may
+// return and which then have to be reported, become strings).
+func utSan(x float64) interface{} {
+	if math.IsNaN(x) || math.IsInf(x, 0) {
+		return fmt.Sprint(x)
+	}
+	return x
+}
+
 func utAuxEq(got, want float64) bool {
 	return math.Abs(got-want) <= 1e-12+1e-9*math.Max(math.Abs(got), math.Abs(want))
 }
@@ -748,7 +757,7 @@ func utApprox(c *utCase) Verdict {
 			v.Signature = sig
 			v.Detail = fmt.Sprintf("auxiliary (n1=%d n2=%d ties=%v exact=%v): alt=%s U=%v P=%v, independent evaluation gives %v",
 				n1, n2, c.Ties, c.Exact, alt, res.U, res.P, want)
-			v.Want, v.Got = want, res.P
+			v.Want, v.Got = utSan(want), utSan(res.P)
 			return v
 		}
 		if alt == "two" {
@@ -777,7 +786,7 @@ func utApprox(c *utCase) Verdict {
 				v.Signature = "compare-two-sided"
 				v.Detail = fmt.Sprintf("auxiliary (n1=%d n2=%d ties=%v exact=%v): benchmath.AssumeNothing.%s: P=%v, twice the smaller one-sided value (less %v, greater %v) capped at 1 is %v",
 					n1, n2, c.Ties, c.Exact, o.name, o.cmp.P, wants["less"], wants["greater"], wantTwo)
-				v.Want, v.Got = wantTwo, o.cmp.P
+				v.Want, v.Got = utSan(wantTwo), utSan(o.cmp.P)
 				return v
 			}
 		}
